@@ -289,7 +289,13 @@ fn random_case(seed: u64, run: u64) -> C14Case {
 }
 
 fn run<RK: RadioKind>(rk: RK, world: WorldRef, case: &C14Case) -> Outcome {
-    let mut ex = Exec::new(rk, world, case);
+    let mut ex = match Exec::new(rk, world.clone(), case) {
+        Ok(ex) => ex,
+        Err(v) => {
+            let trace = world.borrow_mut().env.trace.take().unwrap_or_default();
+            return Outcome { violation: Some(v), stats: RunStats::default(), trace };
+        }
+    };
     for (i, s) in case.steps.iter().enumerate() {
         if !ex.step(i, s) {
             break;
@@ -381,24 +387,100 @@ impl Property for C14 {
     }
 }
 
-/// Harness self-test: every canonical scenario runs undisturbed on every chip; two executions agree.
+/// Harness self-test. Judges only the harness (chip models, determinism), never the device under test: a broken
+/// driver must surface as a VIOLATION of the batch, not as a harness error.
 pub fn self_test() -> Result<(), String> {
+    use crate::chip126x::*;
     install_quiet_panic_hook();
+    // --- ChipModel126x, driven directly over its transaction interface ---
+    let w = make_world(ChipKind::Sx1262, Board::default(), false);
+    {
+        let mut w = w.borrow_mut();
+        let w = &mut *w;
+        let Chip::C126(c) = &mut w.chip else { return Err("wrong chip".into()) };
+        let env = &mut w.env;
+        c.transaction(env, &[0x8A, 0x01], 0); // SetPacketType LoRa
+        c.transaction(env, &[0x0E, 0xFE, 1, 2, 3, 4], 0); // WriteBuffer at 254: wraps
+        let r = c.transaction(env, &[0x1E, 0xFE, 0x00], 4);
+        if r != vec![1, 2, 3, 4] || c.buf[0] != 3 {
+            return Err(format!("126x data buffer does not wrap at 256: {r:?}"));
+        }
+        if c.valid & V_PKT_TYPE == 0 || c.valid & V_PAYLOAD == 0 {
+            return Err("126x validity bits not set".into());
+        }
+        c.transaction(env, &[0x84, 0x04], 0); // warm sleep
+        if c.valid & V_PKT_TYPE == 0 || c.asleep(env.now_us).is_none() || c.busy_until(env).is_some() {
+            return Err("126x warm sleep: configuration must survive, BUSY must be high".into());
+        }
+        c.transaction(env, &[0xC0, 0x00], 0); // wake-up
+        if !env.alerts.is_empty() || c.mode != Mode::StdbyRc {
+            return Err("126x GetStatus wake-up misjudged".into());
+        }
+        env.now_us += 1000;
+        c.transaction(env, &[0x84, 0x00], 0); // cold sleep
+        if c.valid != 0 {
+            return Err("126x cold sleep must clear the configuration".into());
+        }
+        c.transaction(env, &[0x80, 0x00], 0); // SetStandby to a sleeping chip: monitor (b)
+        if env.alerts.len() != 1 || env.alerts[0].invariant != "C14.commanded-while-asleep" {
+            return Err("126x monitor (b) did not fire on a command to a sleeping chip".into());
+        }
+        env.alerts.clear();
+        env.now_us += 10_000;
+        c.transaction(env, &[0x83, 0, 0, 0], 0); // SetTx on an unconfigured chip: monitor (c)
+        if env.alerts.first().map(|a| a.invariant) != Some("C14.started-unconfigured") {
+            return Err("126x monitor (c) did not fire on SetTx after a cold start".into());
+        }
+        env.alerts.clear();
+        // duty cycle: RX 10 ms, sleep 20 ms
+        c.valid = u32::MAX;
+        env.now_us += 1000;
+        c.transaction(env, &[0x8A, 0x01], 0);
+        c.transaction(env, &[0x08, 0xFF, 0xFF, 0xFF, 0xFF, 0, 0, 0, 0], 0);
+        c.transaction(env, &[0x94, 0, 0x02, 0x80, 0, 0x05, 0x00], 0);
+        let t0 = env.now_us;
+        if c.asleep(t0 + 5_000).is_some() || c.asleep(t0 + 15_000).is_none() || c.asleep(t0 + 31_500).is_some() {
+            return Err("126x duty-cycle phases misplaced".into());
+        }
+    }
+    // --- ChipModel127x ---
+    let w = make_world(ChipKind::Sx1276, Board::default(), false);
+    {
+        let mut w = w.borrow_mut();
+        let w = &mut *w;
+        let Chip::C127(c) = &mut w.chip else { return Err("wrong chip".into()) };
+        let env = &mut w.env;
+        c.transaction(env, &[0x81, 0x81], 0); // LoRa + standby written in FSK standby: LongRangeMode must be ignored
+        if c.lora() {
+            return Err("127x LongRangeMode changed outside sleep".into());
+        }
+        c.transaction(env, &[0x81, 0x80], 0);
+        c.transaction(env, &[0x81, 0x81], 0);
+        if !c.lora() || !c.in_standby() {
+            return Err("127x LoRa standby not reached".into());
+        }
+        c.transaction(env, &[0x8D, 0xFE], 0);
+        c.transaction(env, &[0x80, 9, 8, 7], 0); // FIFO burst across 255 -> 0
+        c.transaction(env, &[0x8D, 0xFE], 0);
+        let r = c.transaction(env, &[0x00], 3);
+        if r != vec![9, 8, 7] {
+            return Err(format!("127x FIFO pointer does not wrap: {r:?}"));
+        }
+        c.transaction(env, &[0x92, 0xFF], 0);
+        c.transaction(env, &[0x81, 0x80], 0); // sleep
+        c.transaction(env, &[0x80, 1], 0); // FIFO write in sleep: monitor (b)
+        if env.alerts.first().map(|a| a.invariant) != Some("C14.commanded-while-asleep") {
+            return Err("127x monitor (b) did not fire on FIFO access in sleep".into());
+        }
+    }
+    // --- determinism of whole runs (the verdict of the run itself is not judged here) ---
     for chip in ALL_CHIPS {
-        let steps = vec![Step::of(Op::Sleep { warm: false }), Step::of(prep_tx()), Step::of(Op::Tx), Step::of(prep_rx(SINGLE)), Step::with(Op::Rx { buf: 64 }, vec![done(12)])];
+        let steps = vec![Step::of(Op::Sleep { warm: false }), Step::of(prep_tx()), Step::of(Op::Tx), Step::of(prep_rx(DUTY)), Step::with(Op::Rx { buf: 64 }, vec![Irq::Preamble, done(12)])];
         let c = C14Case { chip, board: Board { tcxo: true, dcdc: true, rx_boost: false, tx_boost: false }, steps, avoid: vec![] };
         let a = guarded_execute(&C14, &c, true)?;
         let b = guarded_execute(&C14, &c, true)?;
-        if a.trace != b.trace || a.stats.shape != b.stats.shape {
+        if a.trace != b.trace || a.stats.shape != b.stats.shape || a.stats.counters != b.stats.counters {
             return Err(format!("C14 self-test: two executions of one case differ on {chip:?}"));
-        }
-        if let Some(v) = a.violation {
-            return Err(format!("C14 self-test: the plain sleep/tx/rx scenario violates on {chip:?}: {} — {}", v.signature, v.message));
-        }
-        for p in ["probe.tx-completed", "probe.rx-completed", "probe.recovered-at-once"] {
-            if !a.stats.counters.contains_key(p) {
-                return Err(format!("C14 self-test: {p} not reached on {chip:?}: {:?}", a.stats.counters));
-            }
         }
     }
     Ok(())
